@@ -53,6 +53,17 @@ impl QueryMut for InsertAliasesQuery {
                     }
 
                     let db_id = db.db_id(id)?;
+
+                    if db_id.0 < 0 {
+                        return Err(DbError::query(
+                            DbErrorType::NotAllowed,
+                            format!(
+                                "Aliases are only allowed for nodes - edge id '{}' found",
+                                db_id.0
+                            ),
+                        ));
+                    }
+
                     db.insert_alias(db_id, alias)?;
                     result.result += 1;
                 }
